@@ -1871,6 +1871,10 @@ func (e *c05Env) unmarshalCase(in []byte, r *rand.Rand, optSel int, targets []fu
 				})
 				if a, b := c05JErr(we2, 0), c05JErr(ge2, 0); a == b && strings.HasPrefix(a, "SYN:text:") {
 					field = "legacy-offset-depends-on-buffered-invalid-text"
+				} else if e.legacyOffsetOnly(in, p, optSel, wcl, gcl) {
+					// without the option the semantic layer may report something else first (legacy mode validates the
+					// whole value syntactically before it unmarshals): compare at the syntactic layer itself
+					field = "legacy-offset-depends-on-buffered-invalid-text"
 				}
 			}
 			if field != "" {
@@ -1896,6 +1900,42 @@ func (e *c05Env) unmarshalCase(in []byte, r *rand.Rand, optSel int, targets []fu
 			c.Violate("stream-mismatch", "Value.IsValid-vs-stream", in, map[string]any{"input": trunc(string(in), 200), "reader": p.String(), "IsValid": valid, "stream_single_value": ok, "options": optSel})
 		}
 	}
+}
+
+// legacyOffsetOnly decides whether two V1SYN classes that differ only in SyntaxError.Offset are finding D17: under
+// ReportErrorsWithLegacySemantics the input is first validated syntactically as ONE value followed by the end of the
+// input (CheckNextValue(last)), and the reported Offset is ByteOffset + len(the invalid text as it happened to be
+// buffered).  Condition: WITHOUT the option, the same syntactic pass (ReadValue, then the end of input) over the whole
+// slice and over the same reader stops with the same class of invalid-text error at the same ByteOffset with the same
+// pointer, and both legacy offsets lie inside the invalid text behind that ByteOffset (1..12 bytes).
+func (e *c05Env) legacyOffsetOnly(in []byte, p c05Plan, optSel int, wcl, gcl string) bool {
+	var wo, gofs int64
+	if _, err := fmt.Sscanf(wcl, "V1SYN@%d", &wo); err != nil {
+		return false
+	}
+	if _, err := fmt.Sscanf(gcl, "V1SYN@%d", &gofs); err != nil {
+		return false
+	}
+	first := func(recs []c05Rec) (c05Rec, bool) {
+		for _, rc := range recs {
+			if rc.ecl != "nil" {
+				return rc, rc.ecl != "EOF"
+			}
+		}
+		return c05Rec{}, false
+	}
+	ref, _ := c05RunRef(e.c, in, optSel&3, []byte("VT"), nil, 0)
+	got, _ := c05RunStream(e.c, in, p, optSel&3, []byte("VT"), false, 0)
+	if ref.panicked != nil || got.panicked != nil {
+		return false
+	}
+	a, oka := first(ref.recs)
+	b, okb := first(got.recs)
+	if !oka || !okb || a.ecl != b.ecl || !strings.HasPrefix(a.ecl, "SYN:text:") || a.eoff != b.eoff || a.eptr != b.eptr {
+		return false
+	}
+	inside := func(x int64) bool { return x > a.eoff && x <= a.eoff+12 }
+	return inside(wo) && inside(gofs)
 }
 
 func (e *c05Env) decodeStreamCase(in []byte, r *rand.Rand, optSel int, mk func() any) {
